@@ -42,6 +42,7 @@ def run(ctx: Ctx):
     ctx.attempt(iterators, ctx)
     ctx.attempt(file_order, ctx)
     ctx.attempt(adds_once, ctx)
+    ctx.attempt(rows_reach_fold, ctx)
     ctx.attempt(prices, ctx)
     ctx.attempt(key_provenance, ctx)
     ctx.attempt(h3_guard, ctx)
@@ -261,6 +262,35 @@ def adds_once(ctx: Ctx):
             for c in flow.calls_in(p.value, "reduce"):
                 ok = len(c.args) >= 3 and flow.dump(c.args[1]) == outer.params[0] and flow.dump(c.args[2]) == outer.params[1]
     ctx.check(ok, "D3", "DU.adds-once", "update_requests_from_iterator folds over the given iterator starting from the given state", outer, why_bad="fold shape changed", construct="update_requests_from_iterator:fold")
+
+
+def rows_reach_fold(ctx: Ctx):
+    """'Each request in the input enters exactly once / each price entry takes effect': whatever an update takes out of its reader in a
+    step is handed to the fold that admits it. The reader only moves forward, so rows read on a path that does not fold them (counted,
+    skipped, peeked at) are gone for the rest of the run."""
+    n = 0
+    for file, qn, consumers in ((URF, "UpdateRequestsFromFile.update", ("update_requests_from_iterator", "reduce")), (CPU, "ChargingPriceUpdate.update", ("reduce",))):
+        fn = ctx.repo.func(file, qn)
+        for p in flow.paths(fn.node):
+            if p.kind == "raise":
+                continue
+            reads = [e for e in p.events if e.name == "read_until_stop_condition"]
+            if not reads:
+                continue
+            fed = set()
+            for e in p.events:
+                if e.name in consumers:
+                    for a in list(e.call.args) + [k.value for k in e.call.keywords]:
+                        if _row_stream(a):
+                            fed |= {flow.dump(c) for c in flow.calls_in(a, "read_until_stop_condition")}
+            for r in reads:
+                n += 1
+                ok = flow.dump(r.call) in fed
+                ctx.check(ok, "D3", "PATH.row-conservation", f"{qn}: the rows taken from the reader in a step are the rows the step folds into the state", fn, r.raw,
+                          why_bad=f"on path [{p.cond_text()[:160]}] rows are read by `{flow.dump(r.call)[:100]}` and never reach {' / '.join(consumers)}: the reader only moves forward, so those "
+                                  f"entries never take effect (no add event, no cancellation, no price change)",
+                          construct=f"{qn}:rows-read-not-folded")
+    ctx.require(n >= 2, f"rows_reach_fold: only {n} reads of the step's rows seen")
 
 
 def row_refusals(ctx: Ctx):
